@@ -438,7 +438,10 @@ pub fn release_snapshots_scenario(seed: u64, n_announces: u64) -> (u64, u64, Vec
     let mut max_writes_per_call = 0u64;
     RECORD_WRITE_RELEASES.store(true, Ordering::Relaxed);
     let _ = take_write_releases();
-    let _ = node.call(1, Call::AnnounceReceiptTimer);
+    if node.call(1, Call::AnnounceReceiptTimer).is_err() {
+        RECORD_WRITE_RELEASES.store(false, Ordering::Relaxed);
+        return (0, 0, vec![]);
+    }
     let mut check = |what: &str, problems: &mut Vec<String>, states: &mut u64, maxw: &mut u64| {
         let snaps = take_write_releases();
         *maxw = (*maxw).max(snaps.len() as u64);
@@ -500,7 +503,10 @@ pub fn release_snapshots_scenario(seed: u64, n_announces: u64) -> (u64, u64, Vec
             check("BMCA", &mut problems, &mut states, &mut max_writes_per_call);
         }
         if k % 5 == 0 {
-            let _ = node.call(1, Call::AnnounceTimer);
+            // a panicking call (e.g. a nested acquisition, reported by part (a)) leaves the port unusable
+            if node.call(1, Call::AnnounceTimer).is_err() {
+                break;
+            }
             check("announce timer", &mut problems, &mut states, &mut max_writes_per_call);
         }
         if k % 50 == 49 {
